@@ -3,11 +3,64 @@ package zzsimrt
 import (
 	"encoding/json"
 	"fmt"
-	"math/rand/v2"
 )
 
-// Rand is the PRNG all generated choices come from.
-type Rand = rand.Rand
+// Rand is the PRNG all generated choices come from (xoshiro256**). It is
+// implemented here, in functions the race detector does not instrument,
+// because the scheduler's own bookkeeping must stay invisible to it.
+type Rand struct {
+	s [4]uint64
+}
+
+// NewRand seeds a generator.
+//
+//go:norace
+func NewRand(a, b uint64) *Rand {
+	r := &Rand{}
+	x := a
+	for i := range r.s {
+		x += 0x9e3779b97f4a7c15
+		r.s[i] = splitmix(x ^ b)
+		b = b*6364136223846793005 + 1442695040888963407
+	}
+	return r
+}
+
+//go:norace
+func rotl(x uint64, k uint) uint64 { return (x << k) | (x >> (64 - k)) }
+
+// Uint64 returns the next value.
+//
+//go:norace
+func (r *Rand) Uint64() uint64 {
+	res := rotl(r.s[1]*5, 7) * 9
+	t := r.s[1] << 17
+	r.s[2] ^= r.s[0]
+	r.s[3] ^= r.s[1]
+	r.s[1] ^= r.s[2]
+	r.s[0] ^= r.s[3]
+	r.s[2] ^= t
+	r.s[3] = rotl(r.s[3], 45)
+	return res
+}
+
+// IntN returns a value in [0,n).
+//
+//go:norace
+func (r *Rand) IntN(n int) int {
+	if n <= 1 {
+		return 0
+	}
+	// rejection sampling keeps the distribution exact
+	un := uint64(n)
+	limit := (^uint64(0) / un) * un
+	for {
+		v := r.Uint64()
+		if v < limit {
+			return int(v % un)
+		}
+	}
+}
 
 // Choice is one recorded nondeterministic decision.
 type Choice struct {
@@ -46,7 +99,7 @@ type Tape struct {
 	Rec    []Choice
 	replay []Choice
 	pos    int
-	rng    *rand.Rand
+	rng    *Rand
 	Replay bool
 	// Diverged counts replayed choices whose kind or n differed from the record.
 	Diverged int
@@ -54,6 +107,7 @@ type Tape struct {
 	NoRec bool
 }
 
+//go:norace
 func splitmix(x uint64) uint64 {
 	x += 0x9e3779b97f4a7c15
 	z := x
@@ -66,7 +120,7 @@ func splitmix(x uint64) uint64 {
 func NewTape(seed uint64, idx uint64) *Tape {
 	a := splitmix(seed ^ 0x5851f42d4c957f2d)
 	b := splitmix(a + idx*0x9e3779b97f4a7c15 + 1)
-	return &Tape{rng: rand.New(rand.NewPCG(a^idx, b))}
+	return &Tape{rng: NewRand(a^idx, b)}
 }
 
 // NewReplayTape creates a tape that replays recorded choices.
@@ -75,15 +129,19 @@ func NewReplayTape(rec []Choice) *Tape {
 }
 
 // Rng exposes the PRNG (nil in replay mode); only for strategy code called via ChooseWith.
-func (t *Tape) Rng() *rand.Rand { return t.rng }
+func (t *Tape) Rng() *Rand { return t.rng }
 
 // Choose draws uniformly in [0,n).
+//
+//go:norace
 func (t *Tape) Choose(kind string, n int) int {
 	return t.ChooseWith(kind, n, nil)
 }
 
 // ChooseWith draws in [0,n); in generate mode gen (if not nil) decides the
 // value (it may use the PRNG), in replay mode the record decides.
+//
+//go:norace
 func (t *Tape) ChooseWith(kind string, n int, gen func(r *Rand) int) int {
 	if n <= 1 {
 		return 0
